@@ -178,6 +178,30 @@ fn deep(rng: &mut Rng, d: usize) -> String {
     format!("{}{}{}", open, numeral(rng), close)
 }
 
+/// Wide documents: long arrays, objects with many members, long strings (sizes around the
+/// usual thresholds), so that size-dependent paths of reader, value model and printer are
+/// crossed as well.
+fn wide(rng: &mut Rng) -> String {
+    let n = [33usize, 64, 65, 129, 257, 1000, 1025, 4097][rng.below(8)] + rng.below(3);
+    match rng.below(4) {
+        0 => format!("[{}]", (0..n).map(|_| numeral(rng)).collect::<Vec<_>>().join(",")),
+        1 => format!("[{}]", (0..n).map(|_| jtext(rng, 1)).collect::<Vec<_>>().join(", ")),
+        2 => {
+            let items: Vec<String> = (0..n).map(|i| format!("\"k{}{}\": {}", (i * 7919) % 10007, if i % 50 == 0 { "\\u00e9" } else { "" }, jtext(rng, 1))).collect();
+            format!("{{{}}}", items.join(","))
+        }
+        _ => {
+            let mut s = String::from("\"");
+            for _ in 0..(n * 20 / 12 + 1) {
+                let part = jstring(rng);
+                s.push_str(&part[1..part.len() - 1]);
+            }
+            s.push('"');
+            s
+        }
+    }
+}
+
 pub fn run(args: &Args) {
     let mut rep = Report::new("C08");
     let path = args.kv.get("records").cloned().expect("--records");
@@ -188,6 +212,7 @@ pub fn run(args: &Args) {
         let text = match rng.below(40) {
             0 => { let d = 120 + rng.below(12); deep(&mut rng, d) }
             1 => format!("{}{}{}", ws(&mut rng), numeral(&mut rng), ws(&mut rng)),
+            2 if i % 8 == 0 => wide(&mut rng),
             _ => format!("{}{}{}", ws(&mut rng), jtext(&mut rng, 4), ws(&mut rng)),
         };
         rep.evaluations += 1;
